@@ -779,14 +779,14 @@ def families(tier):
                   required_classes=('gp_bandit', 'gp_ucb_pe'),
                   max_shrink_s={'quick': 120, 'thorough': 300}),
       core.Family('xproc', check_xproc, strategy=xproc_strategy,
-                  budget={'quick': 16, 'thorough': 200},
+                  budget={'quick': 16, 'thorough': 160},
                   shards={'quick': 16, 'thorough': 16},
                   required_classes=lib.CHEAP + (
                       'item_stream', 'item_bench',
                       'two_or_more_parameter_names'),
                   max_shrink_s={'quick': 150, 'thorough': 400}),
       core.Family('cheap', check_cheap, strategy=cheap_strategy,
-                  budget={'quick': 1200, 'thorough': 20000},
+                  budget={'quick': 1200, 'thorough': 16000},
                   shards={'quick': 8, 'thorough': 16},
                   required_classes=lib.CHEAP + (
                       'seed_0', 'history_nonempty', 'foreign_prior_history',
@@ -794,13 +794,13 @@ def families(tier):
                       'nsga2_mutation_phase', 'eagle_pool_full_expected',
                       'cmaes_generation_update')),
       core.Family('seeds', check_seeds, strategy=seeds_strategy,
-                  budget={'quick': 400, 'thorough': 5000},
+                  budget={'quick': 400, 'thorough': 4000},
                   shards={'quick': 8, 'thorough': 16},
                   required_classes=lib.CHEAP + (
                       'r2_judged', 'seed_0_among_seeds',
                       'grid_unshuffled_reference_judged')),
       core.Family('bench', check_bench, strategy=bench_strategy,
-                  budget={'quick': 400, 'thorough': 6000},
+                  budget={'quick': 400, 'thorough': 5000},
                   shards={'quick': 4, 'thorough': 16},
                   required_classes=lib.CHEAP + (
                       'exptr_branin', 'exptr_bbob', 'exptr_simplekd',
